@@ -143,6 +143,35 @@ theorem skipWin_cases (d : Dec) (tag wt : Nat) :
     | panic => exact .inr (.inr ⟨rfl, rfl⟩)
 
 
+/-- where a successful `Skip` leaves the cursor: at the end of the window it returns, which starts at or before the cursor -/
+theorem skipWin_off (d : Dec) (tag wt : Nat) (d' : Dec) (s l : Nat) (h : d.skipWin tag wt = (d', .ok (s, l))) :
+    d'.off = s + l ∧ s ≤ d.off ∧ d.off ≤ d'.off := by
+  unfold Dec.skipWin at h
+  by_cases h0 : d.off ≥ d.len
+  · rw [if_pos h0] at h; cases h
+  · rw [if_neg h0] at h
+    dsimp only at h
+    generalize hb : (if d.ke = d.off ∧ d.ke > d.ks then d.ks else d.off - sizeOfTagKey tag) = bof at h
+    have hbof : bof ≤ d.off := by rw [← hb]; split <;> omega
+    cases hc : d.skipCheck tag wt bof (sizeOfTagKey tag) with
+    | ok u =>
+      cases u
+      rw [hc] at h
+      simp only [] at h
+      cases hk : d.skipLen wt with
+      | ok k =>
+        rw [hk] at h
+        simp only [] at h
+        by_cases hgt : d.off + k > d.len
+        · rw [if_pos hgt] at h; cases h
+        · rw [if_neg hgt] at h
+          cases h
+          refine ⟨?_, hbof, ?_⟩ <;> simp <;> omega
+      | err => rw [hk] at h; cases h
+      | panic => rw [hk] at h; cases h
+    | err => rw [hc] at h; cases h
+    | panic => rw [hc] at h; cases h
+
 theorem bytesOp_same (d : Dec) : Same d d.bytesOp.1 := by
   rcases bytesWin_cases d with ⟨d', s, l, _, ho, hs, _⟩ | ⟨_, ho⟩ | ⟨_, ho⟩
   · rw [ho]; exact hs
